@@ -296,7 +296,12 @@ func forType(t reflect.Type, seen map[reflect.Type]bool, ignore bool, schemas ma
 			}
 
 			if field.Anonymous && embeddedIsFlattened(field) {
-				override := schemas[field.Type]
+				// As for other fields, the entry for B applies to an embedded *B.
+				embedded := field.Type
+				if embedded.Kind() == reflect.Pointer {
+					embedded = embedded.Elem()
+				}
+				override := schemas[embedded]
 				if override != nil {
 					// Type must be object, and only properties can be set.
 					if override.Type != "object" {
